@@ -2,6 +2,7 @@
 package main
 
 import (
+	"encoding/json"
 	"fmt"
 	"os"
 	"strings"
@@ -9,6 +10,31 @@ import (
 )
 
 var commands = map[string]func(args []string){}
+
+// replayers: property id -> function re-executing a replay file without the explorer.
+var replayers = map[string]func(args []string){}
+
+func init() {
+	commands["replay"] = func(args []string) {
+		if len(args) < 1 {
+			fmt.Fprintln(os.Stderr, "usage: vcheck replay <file>")
+			os.Exit(2)
+		}
+		b, err := os.ReadFile(args[0])
+		if err != nil {
+			fmt.Fprintln(os.Stderr, err)
+			os.Exit(2)
+		}
+		var hdr struct{ Property string }
+		json.Unmarshal(b, &hdr)
+		f, ok := replayers[hdr.Property]
+		if !ok {
+			fmt.Fprintf(os.Stderr, "no replayer for property %q\n", hdr.Property)
+			os.Exit(2)
+		}
+		f(args)
+	}
+}
 
 func main() {
 	if len(os.Args) < 2 {
